@@ -198,7 +198,7 @@ def blocks_html(bs, res, tight=False):
                 '<th align="%s">%s</th>\n' % (a, inline_html(c, res)) for a, c in zip(al, b.header))
             body = ''
             for row in b.rows:
-                cells = list(row) + [[] for _ in range(len(al) - len(row))]
+                cells = (list(row) + [[] for _ in range(len(al) - len(row))])[:len(al)]     # GFM: excess cells are ignored
                 body += '<tr>\n%s</tr>\n' % ''.join('<td align="%s">%s</td>\n' % (a, inline_html(c, res)) for a, c in zip(al, cells))
             out.append('<table>\n%s<tbody>\n%s</tbody>\n</table>' % (h, body))
         elif k == 'htmlblock':
